@@ -118,6 +118,10 @@ fn gen(rng: &mut Rng, n: usize, tier: &str) -> Vec<Req> {
         let sc = sr::gen_overlay(rng);
         emit_resolve(&mut out, rng, &sc, "overlay");
     }
+    for _ in 0..(n / 10).max(3) {
+        let sc = sr::gen_promotion(rng);
+        emit_resolve(&mut out, rng, &sc, "promotion");
+    }
     eprintln!("generator statistics: {stats:?}");
     out
 }
